@@ -20,7 +20,7 @@ ASSUMPTIONS = [
 SITES = ['start', 'ce.notify.store', 'futex.wake', 'ce.wait.load', 'futex.wait', 'futex.woken', 'futex.timeout',
          'latch.count_down.fetch_sub', 'latch.try_wait.load', 'latch.arrive.fetch_sub', 'ce.completed.load', 'ce.reset.store',
          'ce.waitFor.load0', 'ce.waitFor.load']
-TAGS = {'wait': 1, 'waitFor': 2, 'try_wait': 3, 'completed': 4}
+TAGS = {'wait': 1, 'waitFor': 2, 'try_wait': 3, 'completed': 4, 'wft': 5, 'wfw': 6}   # 5/6: target and word after a successful waitFor (judged, not part of the model's result log)
 KEY = 'latch-count_down-n-gt-1'
 
 
@@ -91,14 +91,18 @@ def term_of(c, p):
     m = re.search(r'word (-?\d+) cur(.*)', p['extra'])
     word = int(m.group(1))
     cur = [int(x.split(':')[1]) for x in m.group(2).split()]
-    res = dv.coq_list([ls_common.zpairs(p['results'].get(t, [])) for t in range(nthr)])
-    return '(EC %s %s %d%%nat %s %s %s %s %s %d %s %s)' % (
+    res = dv.coq_list([ls_common.zpairs([x for x in p['results'].get(t, []) if x[0] < 5]) for t in range(nthr)])
+    wf = []
+    for t in range(nthr):
+        ex = [x for x in p['results'].get(t, []) if x[0] >= 5]
+        wf += [(ex[i][1], ex[i + 1][1]) for i in range(0, len(ex) - 1, 2)]
+    return '(EC %s %s %d%%nat %s %s %s %s %s %d %s %s %s)' % (
         dv.zlit(c['w0']), 'true' if c['tmo'] else 'false', c['budget'] + 1,   # vsched reports 'done' when the last step is exactly the budget-th
 
         dv.coq_list([dv.coq_list([op_coq(o) for o in pr]) for pr in c['progs']]),
         dv.coq_list([str(x) for x in c['sched']]),
         ls_common.zpairs(p['steps']), res, dv.zlit(word), p['status'],
-        dv.coq_list([str(b) for b in p['blocked']]), dv.coq_list([str(x) for x in cur]))
+        dv.coq_list([str(b) for b in p['blocked']]), dv.coq_list([str(x) for x in cur]), ls_common.zpairs(wf))
 
 
 def run(ctx):
